@@ -2,7 +2,7 @@
    Only property theorems, each closed by quoting lemmas proved elsewhere, and Print Assumptions.
    Generated from Properties/bodies/C04.v.in by mkprop.py (shared preamble: hdr.txt, sec.txt). *)
 From Coq Require Import Arith NArith Bool List Lia.
-Require Import Canon SemTk CountTk TableProto BddBase BddIte BddCR BddSat BddCof BddCof2 BddCtor BddEval BddPaths BddPathsCount BddReach BddExport BddDot BddMinimal BddTerm BddTerm2 Glue Machine Reachable OpSpecs FuelMono FuelMono2.
+Require Import Canon SemTk CountTk TableProto BddBase BddIte BddCR BddSat BddCof BddCof2 BddCtor BddEval BddPaths BddPathsCount BddReach BddExport BddDot BddMinimal BddTerm BddTerm2 Glue Machine Reachable OpSpecs FuelMono FuelMono2 SpecCor.
 Import ListNotations.
 Local Open Scope N_scope.
 
@@ -61,6 +61,17 @@ Section C04.
   Theorem C04_size_returns mr f rf : reachable mr -> liveh mr f rf ->
     exists bound, forall fuel, (bound <= fuel)%nat -> mstep fuel mr (HSize f) <> None.
   Proof. exact (size_step_returns nhash khash bmask cmask0 smask0 capacity cap_ok mr f rf). Qed.
+  (* the reported size is the same for f and NOT f: both queries count the nodes reachable from the same index *)
+  Theorem C04_size_of_negation mr f g rf F fuel fuel' mr1 mr2 n1 n2 :
+    reachable mr -> liveh mr f rf -> liveh mr g (rneg rf) -> denotes mr rf F ->
+    mstep fuel mr (HSize f) = Some (mr1, ONum n1) -> mstep fuel' mr (HSize g) = Some (mr2, ONum n2) -> n1 = n2.
+  Proof.
+    intros HR Lf Lg DF S1 S2.
+    destruct (size_step_spec nhash khash bmask cmask0 smask0 capacity cap_ok mr f rf F fuel mr1 _ HR Lf DF S1) as (_ & _ & l1 & N1 & M1 & E1).
+    destruct (size_step_spec nhash khash bmask cmask0 smask0 capacity cap_ok mr g (rneg rf) (fun e => negb (F e)) fuel' mr2 _ HR Lg (denotes_neg nhash khash mr rf F DF) S2) as (_ & _ & l2 & N2 & M2 & E2).
+    injection E1 as ->. injection E2 as ->. f_equal.
+    apply Nat.le_antisymm; apply NoDup_incl_length; auto; intros j Hj; [apply M2; apply M1 in Hj|apply M1; apply M2 in Hj]; exact Hj.
+  Qed.
 End C04.
 
 Print Assumptions C04_structure.
@@ -73,3 +84,4 @@ Print Assumptions C04_nodes_distinct.
 Print Assumptions C04_reachable_is_cofactor.
 Print Assumptions C04_cofactor_is_reachable.
 Print Assumptions C04_size_returns.
+Print Assumptions C04_size_of_negation.
